@@ -318,6 +318,9 @@ def setitem_views_fails(case):
 
 
 def replay_case(ctx, case):
+    if case.get('op') == 'svd-rankdef':
+        import revchecks as _rc
+        return _rc.svd_rankdef_sweeps_fail(case)
     if case.get('op') == 'setitem-own-views':
         return setitem_views_fails(case)
     if case.get('op') == 'inplace-through-view':
@@ -372,6 +375,14 @@ def run(ctx):
                 f = setitem_views_fails(case)
                 if f:
                     ctx.report(case, 'failure', f)
+    import revchecks as _rc
+    for _i in range(4):
+        case = _rc.svd_rankdef_case(ctx.rng)
+        ctx.evaluations += 1
+        ctx.count('svd-rank-deficient-sweeps')
+        f = _rc.svd_rankdef_sweeps_fail(case)
+        if f:
+            ctx.report(case, 'failure', f)
     # every in-place operator applied through a view of a polynomial, on every run
     for sym in sorted(IOPV):
         for D_, P_ in ((2, 1), (3, 2)):
